@@ -40,7 +40,7 @@ def run(ctx):
         for rep in range(reps * (3 if thorough else 1)):
             key = [rng.randrange(2) for _ in range(n)] if rep % 2 == 0 else vec(rng, n)
             a1, a2 = vec(rng, n, rep % 3 == 2), vec(rng, n); b1, b2 = rng.choice(EXT + [rng.randrange(-2**31, 2**31)]), rng.randrange(-2**31, 2**31)
-            for opc in (0, 1, 2, 3, 4, 5, 6, 7, 100, 101, 102, 103):
+            for opc in (0, 1, 2, 3, 4, 5, 6, 7, 100, 101, 102, 103, 104, 107):
                 p = rng.choice(ps + [rng.randrange(-2**31, 2**31)])
                 args = '%d %d %s %d %s %d' % (n, p, ' '.join(map(str, a1)), b1, ' '.join(map(str, a2)), b2)
                 il = 'lwelin %d %s' % (opc, args)
